@@ -31,6 +31,19 @@ CHECKS = {
         "note": NOTE_COMMON + " kirin's CSE/DCE and Python-to-IR lowering are exercised, not verified; auto blocks cannot be executed, so they are compared structurally only.",
         "technique": "Coq refinement proof over nested blocks (custom induction) + IR abstraction correspondence",
     },
+    "C04": {
+        "text": "PROVED: dead-code elimination and common-subexpression elimination restricted to Pure statements preserve the executed event "
+                "list of every well-formed SSA program (arbitrary values, events, statement kinds) provided no Pure statement emits an event; "
+                "that premise is re-checked on every run against the trait table reflected from every statement class of the move dialect "
+                "group. The source-level semantics of move programs (Model.MoveLang: device calls with kirin's argument ordering, merged "
+                "parallel blocks, gates, for/if, subroutines and closures with early return) is fuel-independent and deterministic. "
+                "NOT PROVED (exercised): kirin's Default/Fold/Inline/UnrollScf passes and interpreter - every generated program x argument tuple "
+                "x route (quick: strength-2 covering array of 10 routes, thorough: all 2^5 decorator combinations + AggressiveUnroll + pipeline "
+                "re-run) is executed and its event log compared with the natively evaluated source, whose labels are compared with "
+                "Model.MoveLang evaluated in Coq.",
+        "note": NOTE_COMMON + " Known finding recorded: @move(aggressive=True) (kirin's aggressive fold) ends the caller at an inlined early return.",
+        "technique": "Coq proofs of pass-level event preservation + reflected purity table + differential over compilation routes against a Coq source semantics",
+    },
     "C05": {
         "text": "Theorems for an ARBITRARY tracer, value, kernel and spec type: the plain interpreter with the recorded spec and the spec-carrying "
                 "interpreter compute the same outcome; folding returns a path only if it is the run-time path and equals run-time evaluation on "
